@@ -267,7 +267,8 @@ def first_json_diff(a, b, path=""):
     return None
 
 
-TIERS = {"quick": {"W1": ("rev", 10, True), "W1f": ("default", 4, False), "W2": ("default", 6, False), "W3": ("default", 10, True), "W4": ("default", 3, False)},
+TIERS = {"quick": {"W1": ("rev", 20, True), "W1f": ("default", 6, False), "W1c": ("default", 6, False), "W2": ("default", 12, True),
+                   "W3": ("default", 20, True), "W4": ("default", 8, True)},
          "thorough": {"W1": ("rev", 200, True), "W1f": ("rev", 40, True), "W2": ("rev", 200, True), "W3": ("rev", 200, True), "W4": ("default", 40, True)}}
 
 
